@@ -102,17 +102,16 @@ theorem one_cell_per_setting :
       ["ENUM_SYMBOL_NAME_VALIDATOR_ONCE", "MAX_ALLOCATION_BYTES", "NAMESPACE_VALIDATOR_ONCE", "NAME_VALIDATOR_ONCE",
        "RECORD_FIELD_NAME_VALIDATOR_ONCE", "SCHEMATA_COMPARATOR_ONCE", "SERDE_HUMAN_READABLE"] := by decide
 
-/-- …and no other write-once cell anywhere in the crate, module-level or local to a function: the
-whole list of `OnceLock` statics is this one (the regex caches and the CRC table besides the seven
-settings) -/
+/-- …and no other write-once cell that holds a setting anywhere in the crate, module-level or local to a
+function: the `OnceLock` statics holding a number, a flag or a boxed trait object are exactly these seven.  (Cells that
+cache a computed value - the compiled name regexes, the CRC table - are not settings and are not pinned: a new cache
+does not touch the property.) -/
 theorem no_other_cell :
-    Generated.onceCellSites =
-      [("ENUM_SYMBOL_NAME_ONCE", "avro/src/validator.rs"), ("ENUM_SYMBOL_NAME_VALIDATOR_ONCE", "avro/src/validator.rs"),
-       ("FIELD_NAME_ONCE", "avro/src/validator.rs"), ("FPTABLE_ONCE", "avro/src/rabin.rs"),
-       ("MAX_ALLOCATION_BYTES", "avro/src/util.rs"), ("NAMESPACE_ONCE", "avro/src/validator.rs"),
+    (Generated.onceCellSites.filter (fun c => c.2.2 == "setting")).map (fun c => (c.1, c.2.1)) =
+      [("ENUM_SYMBOL_NAME_VALIDATOR_ONCE", "avro/src/validator.rs"), ("MAX_ALLOCATION_BYTES", "avro/src/util.rs"),
        ("NAMESPACE_VALIDATOR_ONCE", "avro/src/validator.rs"), ("NAME_VALIDATOR_ONCE", "avro/src/validator.rs"),
        ("RECORD_FIELD_NAME_VALIDATOR_ONCE", "avro/src/validator.rs"), ("SCHEMATA_COMPARATOR_ONCE", "avro/src/schema_equality.rs"),
-       ("SCHEMA_NAME_ONCE", "avro/src/validator.rs"), ("SERDE_HUMAN_READABLE", "avro/src/util.rs")] := by decide
+       ("SERDE_HUMAN_READABLE", "avro/src/util.rs")] := by decide
 
 /-- the cells are only ever touched through the two atomic operations of the model
 (`get_or_init`, `set`) — no `get` + `set` sequences, no `take` -/
